@@ -30,6 +30,14 @@ def case_st(draw):
         c["starts"] = starts
         if c["tracks"] - starts[-1] > 56:
             c["starts"] = [1 + i * 10 for i in range(8)]
+        if draw(st.integers(0, 2)) == 0 and nvol >= 2:
+            # uneven split: some volumes are a single track (18 sectors, the smallest an Opus volume can be)
+            gaps = draw(st.lists(st.sampled_from([1, 1, 2, 3, base]), min_size=nvol - 1, max_size=nvol - 1))
+            st2 = [1]
+            for g in gaps:
+                st2.append(st2[-1] + g)
+            if st2[-1] < c["tracks"] and c["tracks"] - st2[-1] <= 56:
+                c["starts"] = st2
         c["vol"] = draw(st.integers(0, len(c["starts"]) - 1))
         # the volume table need not list the volumes in disc order: a volume ends where the PHYSICALLY next one begins
         c["rot"] = draw(st.sampled_from([0, 0, 1, 2, 5]))
@@ -47,7 +55,8 @@ class C17(CheckBase):
     level = "exploration"
     variants = ("asan", "dbg")
     rule = ("generated catalogues with one probe entry (the top entry of its catalogue) whose extent ends at "
-            "boundary-2 .. boundary+2 (and +17, +300) sectors relative to: the end of each Opus volume A-H, the end "
+            "boundary-2 .. boundary+2 (and +17, +300) sectors relative to: the end of each Opus volume A-H (even or "
+            "uneven split, single-track volumes included), the end "
             "of a one-sided surface, the end of side 0 / side 1 of an interleaved two-sided image, the end of an MMB "
             "slot; neighbouring regions hold different random data.  type --binary, dump and extract-files are run "
             "on the ASan build.  Oracle: extent inside => exit 0 and the exact bytes; otherwise exit != 0 with a "
@@ -84,6 +93,8 @@ class C17(CheckBase):
                 vi = case["vol"]
                 if rot:
                     v.classes.append("opus-table-not-in-disc-order")
+                if any(b - a == 1 for a, b in zip(phys, phys[1:] + [tracks])):
+                    v.classes.append("opus-one-track-volume")
                 vols_full, vols_clip = [], []
                 boundary = None
                 for i, stt in enumerate(starts):
@@ -177,12 +188,14 @@ class C17(CheckBase):
             v.classes.append("inside" if inside else "crossing")
             if abs(delta) <= 2:
                 v.nontrivial = True
-            fq = ":%s.$.PROBE" % vsel
-            # ---- type --binary and dump
-            for cmd, render in ((["type", "--binary", fq], lambda b: b), (["dump", fq], disc.render_dump)):
-                r = runtool.run([dfs] + opts + ["--file", img] + cmd, sb.path)
-                v.evaluations += 1
-                self._verdict(v, r, inside, render(expect), cmd[0], label, delta, r.stdout)
+            # ---- type --binary and dump (volume A of an Opus disc also through the plain drive number)
+            sels = [vsel] + (["0"] if kind == "opus" and vsel == "0A" else [])
+            for sel in sels:
+                fq = ":%s.$.PROBE" % sel
+                for cmd, render in ((["type", "--binary", fq], lambda b: b), (["dump", fq], disc.render_dump)):
+                    r = runtool.run([dfs] + opts + ["--file", img] + cmd, sb.path)
+                    v.evaluations += 1
+                    self._verdict(v, r, inside, render(expect), cmd[0] + " " + fq, label, delta, r.stdout)
             # ---- extract-files
             dest = sb.mkdir("out")
             r = runtool.run([dfs] + opts + ["--file", img, "--drive", vsel, "extract-files", dest], sb.path)
